@@ -2,7 +2,8 @@
 C14 helper lemmas, second pass: which sites pool admission can reach at all.
 
 Purely syntactic: whatever the guards, `poolAdmit` only ever traps at a site of `admissionSites` (the
-execution-only traps `vDao*`, `vBpCand`, `rAddSlice`, `rSubNil`, `nEx*`, `x*` do not occur in it).
+execution-only traps `vDao*`, `vBpCand`, `rAddSlice`, `rSubNil`, `rSyncTop`, `rThreshDiv`, `tLessSlice`, `nEx*`, `x*`
+do not occur in it).
 Together with `safe_poolAdmit` this gives full-strength admission totality as soon as no admission
 site is left in `pinned`.
 -/
@@ -12,7 +13,7 @@ open Aergo.Json
 
 open Site in
 def admissionSites : List Site := [tNameUpdTo, tNameOwner0, tNameCommon0, sParseId0, sCandSlice, nVal0, eAdmin0,
-  eEnable0, eEnable1, eCtx0, eCtxTail, eCtx1, eCheckArgs0, eRpcVals0, eCc0, cRpcSplit, gAdmins]
+  eEnable0, eEnable1, eCtx0, eCtxTail, eCtx1, eCheckArgs0, eRpcVals0, eCc0, cRpcSplit, gAdmins, fCalcGas, pFdRsp]
 
 theorem reach_fixGuard {L : List Site} (u : List Site) (s : Site) (c : Bool) (r : Rej) : Safe L (fixGuard u s c r) := by
   unfold fixGuard; split <;> first | exact safe_reject _ | exact safe_ok _
@@ -27,6 +28,7 @@ macro "reach" : tactic => `(tactic| repeat (first
   | reach_lemma
   | exact safe_idx _ _ _ (.inl (by decide)) | exact safe_sliceFrom _ _ _ (.inl (by decide))
   | exact safe_argStr _ _ _ (.inl (by decide)) | exact safe_panic (by decide)
+  | exact safe_divInt _ _ _ (.inl (by decide)) | exact safe_divNat _ _ _ (.inl (by decide))
   | refine safe_bind ?_ (fun _ _ => ?_) | split))
 
 theorem reach_typesNameCommon (ci : CallInfo) : Safe admissionSites (typesNameCommon ci) := by
@@ -54,9 +56,45 @@ theorem reach_senderGov (e : Env) : Safe admissionSites (senderGov e) := by
   unfold senderGov; reach
 macro_rules | `(tactic| reach_lemma) => `(tactic| exact reach_senderGov _)
 
+theorem reach_maxGasLimit (b g : Int) : Safe admissionSites (maxGasLimit b g) := by
+  unfold maxGasLimit; reach
+macro_rules | `(tactic| reach_lemma) => `(tactic| exact reach_maxGasLimit _ _)
+
+theorem reach_gasLimitOf (e : Env) (b : Int) : Safe admissionSites (gasLimitOf e b) := by
+  unfold gasLimitOf; reach
+macro_rules | `(tactic| reach_lemma) => `(tactic| exact reach_gasLimitOf _ _)
+
+theorem reach_txMaxFee (e : Env) (b : Int) : Safe admissionSites (txMaxFee e b) := by
+  unfold txMaxFee; reach
+macro_rules | `(tactic| reach_lemma) => `(tactic| exact reach_txMaxFee _ _)
+
+theorem reach_validateMaxFee (e : Env) (b : Int) : Safe admissionSites (validateMaxFee e b) := by
+  unfold validateMaxFee
+  refine safe_bind (reach_txMaxFee _ _) (fun r _ => ?_)
+  cases r with
+  | none => exact safe_reject _
+  | some f => exact safe_rejectIf _ _
+macro_rules | `(tactic| reach_lemma) => `(tactic| exact reach_validateMaxFee _ _)
+
+theorem reach_senderType (e : Env) : Safe admissionSites (senderType e) := by
+  unfold senderType; simp only; reach
+macro_rules | `(tactic| reach_lemma) => `(tactic| exact reach_senderType _)
+
 theorem reach_senderState (e : Env) (b : Bool) : Safe admissionSites (senderState e b) := by
   unfold senderState; reach
 macro_rules | `(tactic| reach_lemma) => `(tactic| exact reach_senderState _ _)
+
+theorem reach_poolRecipient (e : Env) : Safe admissionSites (poolRecipient e) := by
+  unfold poolRecipient; simp only; reach
+macro_rules | `(tactic| reach_lemma) => `(tactic| exact reach_poolRecipient _)
+
+theorem reach_poolFeeDelegation (e : Env) : Safe admissionSites (poolFeeDelegation e) := by
+  unfold poolFeeDelegation; simp only; reach
+macro_rules | `(tactic| reach_lemma) => `(tactic| exact reach_poolFeeDelegation _)
+
+theorem reach_poolOther (e : Env) : Safe admissionSites (poolOther e) := by
+  unfold poolOther; simp only; reach
+macro_rules | `(tactic| reach_lemma) => `(tactic| exact reach_poolOther _)
 
 theorem reach_validateForVote (e : Env) (i : Nat) : Safe admissionSites (validateForVote e i) := by
   unfold validateForVote; reach
@@ -173,9 +211,9 @@ theorem reach_poolAdmit (u : List Site) (e : Env) : Safe admissionSites (poolAdm
   unfold poolAdmit
   apply safe_bind (reach_typesValidate _ _); intro _ _
   apply safe_bind (safe_rejectIf _ _); intro _ _
+  apply safe_bind (reach_senderState _ _); intro _ _
   split
-  · apply safe_bind (reach_senderState _ _); intro _ _
-    exact reach_poolGov _ _
-  · exact safe_ok _
+  · exact reach_poolGov _ _
+  · exact reach_poolOther _
 
 end Aergo.Admit
